@@ -77,12 +77,39 @@ func hushed(f func()) {
 	f()
 }
 
+// withStderr runs f with fd 2 on a temporary file and returns what was written (the handlers report the error PostCheckBlock
+// returned with println, which writes to fd 2; nothing else makes it observable)
+func withStderr(dir string, f func()) string {
+	tmp, err := os.CreateTemp(dir, "stderr")
+	if err != nil {
+		f()
+		return ""
+	}
+	defer os.Remove(tmp.Name())
+	defer tmp.Close()
+	s2, e2 := syscall.Dup(2)
+	if e2 != nil {
+		f()
+		return ""
+	}
+	syscall.Dup3(int(tmp.Fd()), 2, 0)
+	func() {
+		defer func() {
+			syscall.Dup3(s2, 2, 0)
+			syscall.Close(s2)
+		}()
+		f()
+	}()
+	b, _ := os.ReadFile(tmp.Name())
+	return string(b)
+}
+
 // ---------------------------------------------------------------- the node
 
 type cliEnv struct {
 	k     *chainkit.Kit
 	dir   string
-	conns [3]*network.OneConnection
+	conns [4]*network.OneConnection // 0,1: senders of refused copies (a new address each time), 2: the honest sender, 3: the announcer
 	ipSeq uint32
 	drv   *drvProc
 }
@@ -189,6 +216,9 @@ func (e *cliEnv) peer(i int) *network.OneConnection {
 	c.Node.SendCmpctVer = 2
 	return c
 }
+
+// peerAt: connection object i made a new peer, result not needed
+func (e *cliEnv) peerAt(i int) { e.peer(i) }
 
 // ---------------------------------------------------------------- blocks and copies
 
@@ -300,6 +330,8 @@ type cliCopy struct {
 	what string   // how the copy differs from the block
 	txs  [][]byte // transaction list of the copy ('a' / 'b', and 'f' when body is nil)
 	body []byte   // 'f': the payload when it is not a well-formed list
+	// the copy has the block's txids (only witness bytes differ): its Merkle root matches the header
+	sameIds bool
 }
 
 func (c *cliCopy) data(hdr []byte) []byte {
@@ -357,8 +389,127 @@ func badList(g *vlib.Rng, real [][]byte, fat int) ([][]byte, string) {
 	return append(cp, extra()), "one-appended"
 }
 
+// witnessCopy: the block's own transactions with other WITNESS bytes. Every txid, hence the Merkle root of the header, is
+// that of the block: only the witness commitment (or its absence) tells such a copy from the block. Anybody who has the
+// block can make one.
+// witnessClassSel: prefix of the copy's label -> branch of witnessCopy
+var witnessClassSel = []string{"witness-bitflip", "witness-item-added", "witness-stripped", "coinbase-reserved-value-bitflip", "coinbase-w", "witness-added-to-block-without-commitment", "witness-padded-over-weight"}
+
+// witnessCorpus: every class of witness-only copy through every entry path, on every run: the defect fixed in /repo 335b5eaa
+// (such a copy made all three handlers give the VALID block up) must be reported again if it returns
+var witnessCorpus = []string{"witness-bitflip", "witness-item-added", "witness-stripped", "coinbase-reserved-value-bitflip", "coinbase-w", "witness-added-to-block-without-commitment"}
+
+func witnessCopy(g *vlib.Rng, real [][]byte, want string) ([][]byte, string) {
+	n := len(real)
+	cp := append([][]byte{}, real...)
+	var withWit []int
+	for i := 1; i < n; i++ {
+		if ref, k, e := refParse(real[i]); e == "" && k == len(real[i]) && ref.hasWit {
+			withWit = append(withWit, i)
+		}
+	}
+	cbRef, _, _ := refParse(real[0])
+	parse := func(i int) *btc.Tx {
+		tx, k := btc.NewTx(exact(real[i]))
+		if tx == nil || k != len(real[i]) {
+			panic("c09 client: btc.NewTx refuses a transaction of a block built by chainkit")
+		}
+		return tx
+	}
+	for try := 0; try < 12; try++ {
+		sel := g.Intn(6)
+		for k, w := range witnessClassSel {
+			if want != "" && strings.HasPrefix(want, w) {
+				sel = k
+			}
+		}
+		switch sel {
+		case 0: // one bit of one witness item
+			if len(withWit) > 0 {
+				i := withWit[g.Intn(len(withWit))]
+				tx := parse(i)
+				for a := range tx.SegWit {
+					for b := range tx.SegWit[a] {
+						if it := tx.SegWit[a][b]; len(it) > 0 {
+							it[g.Intn(len(it))] ^= byte(1 << uint(g.Intn(8)))
+							cp[i] = tx.SerializeNew()
+							return cp, "witness-bitflip"
+						}
+					}
+				}
+			}
+		case 1: // one more witness item
+			if len(withWit) > 0 {
+				i := withWit[g.Intn(len(withWit))]
+				tx := parse(i)
+				a := g.Intn(len(tx.SegWit))
+				tx.SegWit[a] = append(tx.SegWit[a], g.Bytes(g.Pick(0, 1, 32)))
+				cp[i] = tx.SerializeNew()
+				return cp, "witness-item-added"
+			}
+		case 2: // a transaction without its witness (legacy layout)
+			if len(withWit) > 0 {
+				i := withWit[g.Intn(len(withWit))]
+				tx := parse(i)
+				cp[i] = tx.Serialize()
+				return cp, "witness-stripped"
+			}
+		case 3: // the coinbase's reserved value
+			if cbRef.hasWit {
+				tx := parse(0)
+				if len(tx.SegWit) == 1 && len(tx.SegWit[0]) == 1 && len(tx.SegWit[0][0]) == 32 {
+					tx.SegWit[0][0][g.Intn(32)] ^= byte(1 << uint(g.Intn(8)))
+					cp[0] = tx.SerializeNew()
+					return cp, "coinbase-reserved-value-bitflip"
+				}
+			}
+		case 4: // the coinbase without witness / with a reserved value of another size
+			if cbRef.hasWit {
+				tx := parse(0)
+				if g.Chance(1, 2) {
+					cp[0] = tx.Serialize()
+					return cp, "coinbase-witness-stripped"
+				}
+				tx.SegWit[0] = [][]byte{g.Bytes(g.Pick(0, 31, 33))}
+				cp[0] = tx.SerializeNew()
+				return cp, "coinbase-reserved-value-resized"
+			}
+		case 6: // (never drawn: one forced case per run) one witness item grown until the copy is over the weight limit
+			if len(withWit) > 0 {
+				i := withWit[0]
+				tx := parse(i)
+				tot := 81
+				for _, t := range real {
+					tot += len(t)
+				}
+				tx.SegWit[0] = append(tx.SegWit[0], make([]byte, 3999900-tot-5)) // payload just below the 4e6 limit of a block message
+				cp[i] = tx.SerializeNew()
+				return cp, "witness-padded-over-weight"
+			}
+		case 5: // witness bytes on a block that commits to none
+			if !cbRef.hasWit && len(withWit) == 0 {
+				i := g.Intn(n)
+				tx := parse(i)
+				tx.SegWit = make([][][]byte, len(tx.TxIn))
+				for a := range tx.SegWit {
+					tx.SegWit[a] = [][]byte{}
+				}
+				tx.SegWit[0] = [][]byte{g.Bytes(g.Pick(1, 32))}
+				cp[i] = tx.SerializeNew()
+				return cp, "witness-added-to-block-without-commitment"
+			}
+		}
+	}
+	return nil, ""
+}
+
 func genBadCopy(g *vlib.Rng, hdr []byte, real [][]byte, full []byte, fat int) cliCopy {
 	via := byte(g.Pick('f', 'a', 'a', 'b', 'b'))
+	if g.Chance(1, 4) {
+		if l, what := witnessCopy(g, real, ""); l != nil {
+			return cliCopy{via: byte(g.Pick('f', 'f', 'a', 'b')), what: what, txs: l, sameIds: true}
+		}
+	}
 	if via == 'f' && g.Chance(1, 2) {
 		c := exact(full)
 		switch g.Intn(3) {
@@ -397,14 +548,41 @@ func cliDoc(seed uint64, extra map[string]interface{}) map[string]interface{} {
 	return d
 }
 
-// deliver sends one copy through the real handlers. It returns false when the peer could not get the copy in.
-func (e *cliEnv) deliver(c *network.OneConnection, hdr []byte, hash *btc.Uint256, cp *cliCopy, g *vlib.Rng) (panicked string) {
+// bSplit: a cmpctblock message for the list with the coinbase prefilled and at least one transaction left for a blocktxn
+func bSplit(hdr []byte, txs [][]byte, g *vlib.Rng) (pl []byte, missing [][]byte) {
+	pre := make([]bool, len(txs))
+	pre[0] = true
+	nmiss := 0
+	for i := 1; i < len(pre); i++ {
+		pre[i] = g.Chance(1, 3)
+		if !pre[i] {
+			nmiss++
+		}
+	}
+	if nmiss == 0 {
+		pre[len(pre)-1] = false
+		if len(pre) == 1 {
+			pre[0] = false
+		}
+	}
+	return cmpctMsg(hdr, txs, pre, g.Bytes(8))
+}
+
+// guarded runs one or more handler calls: panics recovered, stdout hushed, what the handlers print on fd 2 returned
+func (e *cliEnv) guarded(f func()) (panicked, printed string) {
 	defer func() {
 		if x := recover(); x != nil {
 			panicked = fmt.Sprint(x)
 		}
 	}()
-	hushed(func() {
+	printed = withStderr(e.dir, func() { hushed(f) })
+	return
+}
+
+// deliver sends one copy through the real handlers. early != nil: the cmpctblock message of a 'b' copy went out before
+// (early = what its blocktxn has to bring), only the blocktxn is sent now.
+func (e *cliEnv) deliver(c *network.OneConnection, hdr []byte, hash *btc.Uint256, cp *cliCopy, g *vlib.Rng, early [][]byte) (panicked, printed string) {
+	return e.guarded(func() {
 		switch cp.via {
 		case 'f':
 			c.VerifDispatch("block", exact(cp.data(hdr)), false)
@@ -416,27 +594,40 @@ func (e *cliEnv) deliver(c *network.OneConnection, hdr []byte, hash *btc.Uint256
 			pl, _ := cmpctMsg(hdr, cp.txs, pre, g.Bytes(8))
 			c.VerifDispatch("cmpctblock", pl, false)
 		case 'b':
-			pre := make([]bool, len(cp.txs))
-			pre[0] = true
-			nmiss := 0
-			for i := 1; i < len(pre); i++ {
-				pre[i] = g.Chance(1, 3)
-				if !pre[i] {
-					nmiss++
-				}
+			missing := early
+			if missing == nil {
+				var pl []byte
+				pl, missing = bSplit(hdr, cp.txs, g)
+				c.VerifDispatch("cmpctblock", pl, false)
 			}
-			if nmiss == 0 {
-				pre[len(pre)-1] = false
-				if len(pre) == 1 {
-					pre[0] = false
-				}
-			}
-			pl, missing := cmpctMsg(hdr, cp.txs, pre, g.Bytes(8))
-			c.VerifDispatch("cmpctblock", pl, false)
 			c.VerifDispatch("blocktxn", blockTxnMsg(hash.Hash[:], missing), false)
 		}
 	})
-	return
+}
+
+// refusalOf: the error PostCheckBlock returned for a refused copy, as netBlockReceived prints it (" ... received from <ip> <error>");
+// class = the decoder's part of it in the model's terms
+func refusalOf(printed string) (class, rpc string) {
+	i := strings.Index(printed, " ... received from")
+	if i < 0 {
+		return "", ""
+	}
+	line := printed[i:]
+	if j := strings.IndexByte(line, '\n'); j >= 0 {
+		line = line[:j]
+	}
+	if k := strings.Index(line, "RPC_Result:"); k >= 0 {
+		rpc = strings.TrimSpace(line[k+len("RPC_Result:"):])
+	}
+	switch {
+	case strings.Contains(line, "size limits failed low"):
+		return "tooShort", rpc
+	case strings.Contains(line, "txn_count"):
+		return "badCount", rpc
+	case strings.Contains(line, "NewTx failed"):
+		return "txFailed", "NewTx-failed"
+	}
+	return "ok", rpc
 }
 
 func drainNetBlocks() (l []*network.BlockRcvd) {
@@ -451,7 +642,8 @@ func drainNetBlocks() (l []*network.BlockRcvd) {
 }
 
 // runClientCase: one block, 0..3 refused copies, then the real block. disk = make the block large enough to be parked.
-func runClientCase(seed uint64, disk bool, forced string) {
+func runClientCase(seed uint64, disk bool, forced string, forceCopy string) (applicable bool) {
+	applicable = true
 	e := cli
 	g := vlib.NewRng(seed)
 	// the block
@@ -482,7 +674,9 @@ func runClientCase(seed uint64, disk bool, forced string) {
 	if disk {
 		kind = "client-diskcache"
 	}
-	r.Eval(kind, "cli"+string(hdr))
+	if forceCopy != "" {
+		kind = "client-witness-only-copy"
+	}
 	var copies []cliCopy
 	nbad := g.Pick(0, 1, 1, 1, 2, 2, 3)
 	if disk {
@@ -490,6 +684,13 @@ func runClientCase(seed uint64, disk bool, forced string) {
 	}
 	for i := 0; i < nbad; i++ {
 		copies = append(copies, genBadCopy(g, hdr, real, full, fat))
+	}
+	if forceCopy != "" { // "<via>:<class of witness-only copy>"
+		l, what := witnessCopy(g, real, forceCopy[2:])
+		if l == nil || !strings.HasPrefix(what, forceCopy[2:]) {
+			return false // this block has no such copy (no witness transaction / a commitment)
+		}
+		copies = []cliCopy{{via: forceCopy[0], what: what, txs: l, sameIds: true}}
 	}
 	final := cliCopy{via: byte(g.Pick('f', 'f', 'f', 'a', 'b')), what: "the-block", txs: real}
 	if disk {
@@ -500,13 +701,15 @@ func runClientCase(seed uint64, disk bool, forced string) {
 		shape += fmt.Sprintf("%c(%s) ", c.via, c.what)
 	}
 	shape += fmt.Sprintf("%c(%s)", final.via, final.what)
-	doc := cliDoc(seed, map[string]interface{}{"history": shape, "block_txs": len(real), "block_len": len(full), "disk": disk, "fault": forced})
+	doc := cliDoc(seed, map[string]interface{}{"history": shape, "block_txs": len(real), "block_len": len(full), "disk": disk, "fault": forced, "copy": forceCopy})
+	defer os.Remove(hash.String() + ".bin") // ProcessCmpctBlock / ProcessBlockTxn dump a refused assembly into the working directory
 	if fresh.err != "none" || fresh.panicked != "" || len(fresh.txs) != len(real) {
 		r.PropFail("client-block-not-decoded", fmt.Sprintf("a fresh btc.Block of a valid %d-transaction block: BuildTxList()=%s %s, %d transactions", len(real), fresh.err, fresh.panicked, len(fresh.txs)), doc)
 		return
 	}
 	beat("the node's handlers on history "+shape, doc)
 	drainNetBlocks()
+	r.Eval(kind, "cli"+string(hdr))
 	// the model follows the same history (small cases): state of the object after every refused copy, then the delivery
 	var model []string
 	total := len(full)
@@ -525,45 +728,137 @@ func runClientCase(seed uint64, disk bool, forced string) {
 	}
 	idx := hash.BIdx()
 	var b2g *network.OneBlockToGet
+	var classes []string
+	if model != nil {
+		if len(model) < 2+len(copies)+1 {
+			r.TieFail("tie-client-object", "history "+shape+": the model has no answer: "+short([]byte(strings.Join(model, " "))), doc)
+			return
+		}
+		if model[0] != "-" {
+			classes = strings.Split(model[0], ",")
+		}
+		model = model[1:]
+	}
+	// interleavings: the ANNOUNCER sends a cmpctblock of the real list that stays incomplete at some point of the history (its
+	// blocktxn comes after the block was taken); the honest sender of a 'b' delivery may send its cmpctblock before the
+	// refused copies and the blocktxn after them. An incomplete cmpctblock does not touch the Block object.
+	annAt, annMissing := -1, [][]byte(nil)
+	if len(real) >= 2 && g.Chance(1, 3) {
+		annAt = g.Intn(len(copies) + 1)
+	}
+	announce := func() bool {
+		r.Hit("client-interleaved:incomplete-cmpctblock-from-another-peer")
+		var pl []byte
+		pl, annMissing = bSplit(hdr, real, g)
+		if p, _ := e.guarded(func() { e.conns[3].VerifDispatch("cmpctblock", pl, false) }); p != "" {
+			r.PropFail("client-handler-panic", fmt.Sprintf("history %s: ProcessCmpctBlock panicked on an incomplete cmpctblock of the block: %s", shape, p), doc)
+			return false
+		}
+		if got := drainNetBlocks(); len(got) != 0 {
+			r.TieFail("tie-client-interleaving", "history "+shape+": a cmpctblock that leaves transactions missing handed a block to the chain thread", doc)
+			return false
+		}
+		return true
+	}
+	e.peerAt(3)
+	honest := e.peer(2)
+	var finalEarly [][]byte
+	if final.via == 'b' && len(copies) > 0 && g.Chance(1, 2) {
+		r.Hit("client-interleaved:cmpctblock-before-the-refused-copies")
+		var pl []byte
+		pl, finalEarly = bSplit(hdr, real, g)
+		if p, _ := e.guarded(func() { honest.VerifDispatch("cmpctblock", pl, false) }); p != "" {
+			r.PropFail("client-handler-panic", fmt.Sprintf("history %s: ProcessCmpctBlock panicked on the cmpctblock of the real block: %s", shape, p), doc)
+			return
+		}
+	}
 	for i := range copies {
 		cp := &copies[i]
+		if annAt == i && !announce() {
+			return
+		}
 		r.Hit(fmt.Sprintf("client-refused-copy:%c:%s", cp.via, cp.what))
 		beat(fmt.Sprintf("the node's handler for copy %d of history %s", i, shape), doc)
 		peer := e.peer(i % 2)
-		if p := e.deliver(peer, hdr, hash, cp, g); p != "" {
+		p, printed := e.deliver(peer, hdr, hash, cp, g, nil)
+		if p != "" {
 			r.PropFail("client-handler-panic", fmt.Sprintf("history %s: the handler panicked on copy %d: %s", shape, i, p), doc)
 			return
 		}
 		if got := drainNetBlocks(); len(got) != 0 {
-			// (cannot happen with another transaction list unless the Merkle root collides)
+			// (cannot happen with another transaction list unless the Merkle root collides; a copy with other witness bytes
+			// is refused by its witness commitment)
 			r.PropFail("client-wrong-copy-accepted", fmt.Sprintf("history %s: copy %d (%s) is not the block, yet a block was handed to the chain thread", shape, i, cp.what), doc)
 			return
 		}
 		network.MutexRcv.Lock()
 		b2g = network.BlocksToGet[idx]
 		network.MutexRcv.Unlock()
+		cls, rpc := refusalOf(printed)
+		if rpc != "" {
+			r.Hit("client-refusal:" + rpc)
+		}
 		if b2g == nil {
-			r.Hit("client-block-given-up-after-refused-copy")
+			// The header is that of a VALID block (the harness built it) and the copy came from ONE peer. Whatever that peer
+			// sent - another transaction list, damaged bytes, the block's own transactions with other witness bytes (same
+			// txids, same Merkle root: anybody can make such a copy) - the node must keep wanting the block.
+			k := "client-block-given-up"
+			if cp.sameIds {
+				k = "client-block-given-up:witness-only-copy"
+			}
+			if cp.what == "witness-padded-over-weight" && rpc == "bad-blk-weight" {
+				// KNOWN (known_findings.txt): PostCheckBlock tests the weight BEFORE the witness commitment, so witness bytes
+				// nobody committed to can push a valid block over the limit; not one of the three refusals 335b5eaa exempts
+				k = "client-block-given-up:witness-padded-over-weight"
+			}
+			r.PropFail(k, fmt.Sprintf("history %s: after copy %d (%s, via %c; PostCheckBlock said %q) the node gave the block up (DelB2G + DeleteBranch: header %s is no longer in BlocksToGet, in the block tree: %v) - the block is valid and its sender never got a chance",
+				shape, i, cp.what, cp.via, rpc, hash.String(), e.k.Ch.BlockIndex[idx] != nil), doc)
+			return
+		}
+		// what the node keeps after a refused copy: the bare header, nothing of the copy
+		if b2g.Block == nil || !bytes.Equal(b2g.Block.Raw, hdr) {
+			r.PropFail("client-refused-copy-kept", fmt.Sprintf("history %s: after refused copy %d (%s) Raw of the node's Block object is %s, not the 80-byte header", shape, i, cp.what, short(b2g.Block.Raw)), doc)
 			return
 		}
 		if model != nil {
-			seg := cliObjSeg("refused", b2g.Block)
-			if i+1 >= len(model) || model[i+1] != seg {
-				m := "(none)"
-				if i+1 < len(model) {
-					m = model[i+1]
-				}
-				r.TieFail("tie-client-object", fmt.Sprintf("history %s: after refused copy %d the node's Block object is %s, the model of the install/discard statements says %s", shape, i, short([]byte(seg)), short([]byte(m))), doc)
+			seg := cliObjSeg("refused@"+vlib.Hex(b2g.Block.Raw), b2g.Block)
+			if model[i+1] != seg {
+				r.TieFail("tie-client-object", fmt.Sprintf("history %s: after refused copy %d the node's Block object is %s, the model of the install/discard statements says %s", shape, i, short([]byte(seg)), short([]byte(model[i+1]))), doc)
 				return
 			}
 			r.TieOK()
+			// the error class PostCheckBlock's parse returned inside the handler (printed by netBlockReceived only)
+			if cls != "" && i < len(classes) {
+				if cls != classes[i] {
+					r.TieFail("tie-client-refusal-class", fmt.Sprintf("history %s: copy %d (%s): PostCheckBlock inside the handler returned %q (decoder class %s), the model's parse of that copy returns %s", shape, i, cp.what, rpc, cls, classes[i]), doc)
+					return
+				}
+				r.TieOK()
+			}
 		}
+		if cp.via == 'f' {
+			// and against a FRESH object of the copy's bytes (property side: the refusal is that of THIS copy)
+			fr := observeBlock(cp.data(hdr), true)
+			want := map[string]string{"none": "ok", "tooShort": "tooShort", "badCount": "badCount", "txFailed": "txFailed"}[fr.err]
+			if len(cp.data(hdr)) < 81 {
+				want = "tooShort"
+			}
+			if cls != "" && want != "" && cls != want {
+				r.PropFail("client-refusal-of-another-copy", fmt.Sprintf("history %s: copy %d (%s) was refused with %q (decoder class %s); a fresh btc.Block of the same bytes gives %s", shape, i, cp.what, rpc, cls, want), doc)
+				return
+			}
+			if cls == "" {
+				r.Hit("client-refusal-not-printed")
+			}
+		}
+	}
+	if annAt == len(copies) && !announce() {
+		return
 	}
 	// the real block
 	r.Hit(fmt.Sprintf("client-real-block-via:%c", final.via))
 	beat("the node's handler for the real block of history "+shape, doc)
-	honest := e.peer(2)
-	if p := e.deliver(honest, hdr, hash, &final, g); p != "" {
+	if p, _ := e.deliver(honest, hdr, hash, &final, g, finalEarly); p != "" {
 		r.PropFail("client-handler-panic", fmt.Sprintf("history %s: the handler panicked on the real block: %s", shape, p), doc)
 		return
 	}
@@ -585,6 +880,16 @@ func runClientCase(seed uint64, disk bool, forced string) {
 		r.PropFail("client-valid-block-refused", fmt.Sprintf("history %s: the VALID block (%d transactions, %d bytes; a fresh btc.Block decodes it: BlockWeight %d) was not handed to the chain thread after the refused copies; sender banned=%v (%s)%s",
 			shape, len(real), len(full), fresh.weight, st.Banit, st.BanReason, detail), doc)
 		return
+	}
+	if annMissing != nil {
+		// the announcer's blocktxn arrives when the block is no longer wanted
+		defer func() {
+			if p, _ := e.guarded(func() { e.conns[3].VerifDispatch("blocktxn", blockTxnMsg(hash.Hash[:], annMissing), false) }); p != "" {
+				r.PropFail("client-handler-panic", fmt.Sprintf("history %s: ProcessBlockTxn panicked on the blocktxn of a block that was taken from another peer meanwhile: %s", shape, p), doc)
+			} else if got := drainNetBlocks(); len(got) != 0 {
+				r.PropFail("client-block-handed-over-twice", "history "+shape+": the late blocktxn of the announcer handed the block to the chain thread a second time", doc)
+			}
+		}()
 	}
 	if rcvd.Block != nil {
 		r.Hit("client-real-block:in-memory")
@@ -611,6 +916,7 @@ func runClientCase(seed uint64, disk bool, forced string) {
 	// parked on disk
 	r.Hit("client-real-block:parked-on-disk")
 	diskCase(g, forced, hash, full, real, fresh, shape, doc)
+	return
 }
 
 // cliRefIds: Txs[i].Hash against the reference parser's txid
@@ -907,20 +1213,38 @@ func clientStream(g *vlib.Rng) {
 	beat("setting up the synthetic node", nil)
 	cli = cliSetup()
 	defer cli.close()
+	probe := os.Getenv("C09_PROBE") == "pad" // development aid: this case only
+	for try := 0; try < 40; try++ { // the known finding, once per run (a 4 MB `block` message)
+		if runClientCase(g.U64(), false, "", "f:witness-padded-over-weight") {
+			break
+		}
+	}
+	if probe {
+		return
+	}
 	n := r.N(70, 900)
 	for i := 0; i < n; i++ {
-		runClientCase(g.U64(), false, "")
+		runClientCase(g.U64(), false, "", "")
+	}
+	for _, w := range witnessCorpus {
+		for _, via := range "fab" {
+			for try := 0; try < 40; try++ {
+				if runClientCase(g.U64(), false, "", string(via)+":"+w) {
+					break
+				}
+			}
+		}
 	}
 	for _, f := range diskCorpus {
-		runClientCase(g.U64(), true, f)
+		runClientCase(g.U64(), true, f, "")
 	}
 	m := r.N(40, 500)
 	for i := 0; i < m; i++ {
-		runClientCase(g.U64(), true, "")
+		runClientCase(g.U64(), true, "", "")
 	}
 }
 
-func replayClient(seed string, disk bool, forced string) {
+func replayClient(seed string, disk bool, forced string, forceCopy string) {
 	s, err := strconv.ParseUint(seed, 10, 64)
 	if err != nil {
 		fmt.Println("bad replay file: case", seed)
@@ -928,7 +1252,7 @@ func replayClient(seed string, disk bool, forced string) {
 	}
 	cli = cliSetup()
 	defer cli.close()
-	runClientCase(s, disk, forced)
+	runClientCase(s, disk, forced, forceCopy)
 }
 
 var _ = chain.NewChainExt
